@@ -16,6 +16,14 @@ def load_known():
 def fkey(f): return (f.prop, f.rule, f.file, f.func, f.construct)
 def kkey(k): return (k["property"], k["rule"], k["file"], k["func"], " ".join(k["construct"].split()))
 
+# minimum number of rule instances per property (fewer => analysis error, exit 2)
+FLOORS = {}
+try:
+    from sa.floors import FLOORS as _F
+    FLOORS.update(_F)
+except ImportError:
+    pass
+
 class Result:
     def __init__(s): s.findings = []; s.errors = []; s.obligations = []; s.rule_runs = []; s.stats = None
 
@@ -59,6 +67,9 @@ def analyse(prop, root):
         if fkey(f) not in seen: seen.add(fkey(f)); uniq.append(f)
     res.findings = uniq
     res.stats = {"files": dict(util.STATS.files), "functions": sorted(util.STATS.functions), "counters": dict(util.STATS.counters)}
+    floor = FLOORS.get(prop, 1)
+    if not res.errors and len(res.obligations) < floor:
+        res.errors.append(("instance-floor", "only %d rule instances found for %s, confirmed floor is %d (an anchor vanished or a rule matches nothing)" % (len(res.obligations), prop, floor)))
     return res
 
 def replay_path(f):
@@ -77,10 +88,8 @@ def run_property(prop, root="/repo", tier="quick", replay=None, out=sys.stdout, 
     for f in res.findings:
         (listed if fkey(f) in open_keys else new).append(f)
     stale = [k for kk, k in open_keys.items() if kk not in {fkey(f) for f in res.findings}]
-    floor = (floors if floors is not None else FLOORS).get(prop, 1)
+    floor = FLOORS.get(prop, 1)
     n_ob = len(res.obligations)
-    if not res.errors and n_ob < floor:
-        res.errors.append(("instance-floor", "only %d rule instances found for %s, hand-confirmed floor is %d (an anchor vanished or a rule matches nothing)" % (n_ob, prop, floor)))
     thorough = None
     if tier == "thorough" and not res.errors and replay is None:
         from sa.selftest import runner
@@ -158,10 +167,3 @@ def run_property(prop, root="/repo", tier="quick", replay=None, out=sys.stdout, 
         {0: "OK", 1: "FAIL", 2: "ERROR"}[rc], prop, tier, n_ob, len(res.findings), len(listed), len(new), len(res.errors), time.time() - t0), file=out)
     return rc
 
-# hand-confirmed minimum number of rule instances per property on the pinned tree (fewer => exit 2)
-FLOORS = {}
-try:
-    from sa.floors import FLOORS as _F
-    FLOORS.update(_F)
-except ImportError:
-    pass
